@@ -248,10 +248,37 @@ class Real:
         m = re.search(r"returns (\d+)", str(e))
         return "err " + (self.err.name(int(m.group(1))) if m else "other:" + str(e)[:60])
 
+    def _layout(self, idx, vals, salt):
+        """the same index / values in one of several memory layouts (the property holds for any float64 input):
+        contiguous, every-second-element view, reversed view, column of a 2-D table; index as int64 / int32 / view"""
+        np = self.np
+        x = np.array(vals, dtype=np.float64)
+        a = np.array(idx, dtype=np.int64)
+        k = (len(vals) * 7 + salt) % 4
+        if k == 1:
+            buf = np.full(2 * len(x), -9.75)
+            buf[::2] = x
+            x = buf[::2]
+        elif k == 2:
+            x = np.ascontiguousarray(x[::-1])[::-1]
+        elif k == 3:
+            tab = np.full((len(x), 3), 4.5)
+            tab[:, 1] = x
+            x = tab[:, 1]
+        j = (len(vals) * 5 + salt) % 3
+        if j == 1:
+            a = a.astype(np.int32)
+        elif j == 2:
+            buf = np.zeros(2 * len(a), dtype=np.int64)
+            buf[::2] = a
+            a = buf[::2]
+        return a, x
+
     def aggregate(self, idx, vals, op, maxnan):
         np = self.np
         try:
-            out = self.dutils.aggregate(np.array(idx, dtype=np.int64), np.array(vals, dtype=np.float64), op, maxnan)
+            a, x = self._layout(idx, vals, int(op) + 3 * int(maxnan))
+            out = self.dutils.aggregate(a, x, op, maxnan)
             return "ok " + C.flist(out), [float(x) for x in out]
         except ValueError as e:
             return self._pyerr(e), None
@@ -261,7 +288,8 @@ class Real:
     def flathomogen(self, idx, vals, maxnan):
         np = self.np
         try:
-            out = self.dutils.flathomogen(np.array(idx, dtype=np.int64), np.array(vals, dtype=np.float64), maxnan)
+            a, x = self._layout(idx, vals, 1 + int(maxnan))
+            out = self.dutils.flathomogen(a, x, maxnan)
             return "ok " + C.flist(out), [float(x) for x in out]
         except ValueError as e:
             return self._pyerr(e), None
